@@ -250,3 +250,65 @@ def rule_units(r, p, fns, floor=1):
                           fail_detail="%s takes a byte offset but receives a character count: %s" % (short, show(c.arg(1), 5)))
     r.floor("unit-sensitive-sites", n, floor)
     return n
+
+
+def loop_trip_count(f, block):
+    """Expression for the number of times the loop around `block` runs its body, for the three counted spellings:
+         for _ in 0..E            -> E
+         v = E; while v > 0 / v != 0 { ..; v -= 1 }     -> E
+         v = 0; while v < E { ..; v += 1 }              -> E
+       None if the loop is not one of these."""
+    from l4sa.core import SwitchInfo, cmp_nf, strip, deep_strip, walk
+    NEXT = "core::iter::traits::iterator::Iterator::next"
+    body = {x for x in f.reach(block, include_src=True) if block in f.reach(x, include_src=True)}
+    if not body or (len(body) == 1 and block not in f.reach(block)):
+        return None
+    nx = [c for c in f.calls(NEXT) if c.block in body and f.dominates(c.block, block)]
+    if nx:
+        for x in walk(nx[0].arg(0)):
+            if x[0] == "agg" and x[1].endswith("::Range") and not any(y[0] == "call" and y[1].rsplit("::", 1)[-1] in ("rev", "step_by", "skip", "take", "filter") for y in walk(nx[0].arg(0))):
+                fd = dict(x[3])
+                if deep_strip(fd.get("start")) == ("const", "int", 0):
+                    return fd.get("end")
+        return None
+    for b in sorted(body):
+        if f.term(b)["k"] != "switch" or not f.dominates(b, block):
+            continue
+        si = SwitchInfo(f, b)
+        stay = [x for x in f.succ[b] if x in body]
+        if not si.is_bool or len(stay) != 1 or len(f.succ[b]) != 2:
+            continue
+        truth = [si.label(v) for v, t in si.edges if t == stay[0]]
+        if not truth or truth[0] not in (True, False):
+            continue
+        nf = cmp_nf(si.discr, truth[0])
+        if nf is None:
+            continue
+        op, a, c = nf[0], deep_strip(nf[1]), deep_strip(nf[2])
+
+        def counter(e, step):
+            if e[0] != "phi":
+                return None
+            init = [x for x in e[1] if not any(y[0] == "cycle" for y in walk(x))]
+            rest = [x for x in e[1] if any(y[0] == "cycle" for y in walk(x))]
+            if len(init) != 1 or not rest:
+                return None
+            for x in rest:
+                x = deep_strip(x)
+                if x[0] == "field" and x[2] == "0":
+                    x = deep_strip(x[1])
+                if not (x[0] == "bin" and x[1].replace("WithOverflow", "").replace("Unchecked", "") == ("Sub" if step < 0 else "Add") and deep_strip(x[2])[0] == "cycle"
+                        and deep_strip(x[3]) == ("const", "int", 1)):
+                    return None
+            return init[0]
+        Z = ("const", "int", 0)
+        if (op == "Lt" and a == Z) or (op == "Ne" and Z in (a, c)):          # 0 < v   /   v != 0
+            v = c if a == Z else a
+            init = counter(v, -1)
+            if init is not None:
+                return init
+        if op == "Lt":                                                        # v < E
+            init = counter(a, +1)
+            if init is not None and deep_strip(init) == Z:
+                return c
+    return None
